@@ -18,6 +18,7 @@ func coprocCase(r *rng.R, spec string, flags uint8, base uint16, n int) string {
 	}
 	m := c.Mem
 	var ops, outs []string
+	pend("coproc %s %d %04x |", spec, flags, base)
 	for i := 0; i < n; i++ {
 		var a uint16
 		switch r.Intn(10) {
@@ -36,6 +37,7 @@ func coprocCase(r *rng.R, spec string, flags uint8, base uint16, n int) string {
 		if r.Chance(15) {
 			v = 0
 		}
+		pendAppend(fmt.Sprintf(" %04x=%02x", a, v))
 		fault := protect(func() { m.Store(a, v) })
 		ops = append(ops, fmt.Sprintf("%04x=%02x", a, v))
 		var sb strings.Builder
